@@ -312,13 +312,13 @@ Qed.
 
 (* the text parseFloat hands to strconv, as one equation *)
 Lemma parse_float_text_eq s sg u :
-  let t := trim_space s in
+  let t := ascii_trim s in
   t <> [] -> opt_sign t = (sg, u) ->
   parse_float_text s =
     if negb (is_nil sg) && (zlen t =? 4) && has_nan_prefix u then None
     else Some (if hex_of u && (negb (contains 112 t) && negb (contains 80 t)) then t ++ str_p0 else t).
 Proof.
-  unfold parse_float_text. set (t := trim_space s). cbv zeta. intros Hne Hos.
+  unfold parse_float_text. set (t := ascii_trim s). cbv zeta. intros Hne Hos.
   destruct t as [|c t'] eqn:Et; [congruence|].
   rewrite opt_sign_cons in Hos. change ((c =? 43) || (c =? 45)) with (is_sign c) in Hos.
   destruct (is_sign c) eqn:Hsc; injection Hos as <- <-.
@@ -352,18 +352,16 @@ Proof.
   assert ((h =? 110) || (h =? 78) = false) as -> by (unfold is_hex_digit, is_digit in Hh; lia). reflexivity.
 Qed.
 
-(* PARTIAL counterpart of the refuted statement: a grammatical input text is a number for
-   parseFloat, or fails with ErrRange - never a syntax error *)
-Theorem numeric_text_accepted_partial s :
-  trim_space s = ascii_trim s -> awk_numeral (ascii_trim s) ->
-  (exists x, parse_float s = PFOk x) \/ (exists v, parse_float s = PFErrRange v).
+(* a grammatical input text (ASCII blanks around it) is a number for parseFloat *)
+Theorem numeric_text_accepted s :
+  awk_numeral (ascii_trim s) -> exists x, parse_float s = PFOk x.
 Proof.
-  intros Htrim Hnum.
+  intros Hnum.
   destruct (awk_numeral_head _ Hnum) as [sg0 [h [r [Hsg0 [Et Hh]]]]].
   assert (Hhs : is_sign h = false) by (unfold is_sign, is_hex_digit, is_digit in *; lia).
   assert (Hos : opt_sign (ascii_trim s) = (sg0, h :: r)) by (rewrite Et; apply opt_sign_build; assumption).
   assert (Hne : ascii_trim s <> []) by (rewrite Et; destruct sg0; discriminate).
-  pose proof (parse_float_text_eq s sg0 (h :: r)) as Htext. cbv zeta in Htext. rewrite Htrim in Htext.
+  pose proof (parse_float_text_eq s sg0 (h :: r)) as Htext. cbv zeta in Htext.
   specialize (Htext Hne Hos). rewrite (has_nan_prefix_head h r Hh), andb_false_r in Htext.
   (* the text handed to strconv is accepted and underscore-free *)
   assert (Hacc : exists text d, parse_float_text s = Some text /\ go_parse_desc text = Some d /\ contains 95 text = false).
@@ -407,7 +405,7 @@ Proof.
         exists (ascii_trim s), d. auto. }
   destruct Hacc as [text [d [Ht [Hd H95]]]].
   unfold parse_float, go_parse_float. rewrite Ht, Hd, H95.
-  destruct (desc_value d) as [v [|]]; [right|left]; eexists; reflexivity.
+  destruct (desc_value d) as [v rng]. eexists; reflexivity.
 Qed.
 
 (* ------------------------------------------------------------------ *)
@@ -484,16 +482,16 @@ Proof.
     split; [exact (proj2 (opt_sign_inv _ _ _ Hose))|]. split; assumption.
 Qed.
 
-(* PARTIAL: with ASCII blanks only, what parseFloat accepts is in the grammar *)
+(* conversely, what parseFloat accepts is, between ASCII blanks, in the grammar *)
 Theorem accepted_is_numeric s x :
-  trim_space s = ascii_trim s -> parse_float s = PFOk x ->
+  parse_float s = PFOk x ->
   awk_numeral (ascii_trim s) \/ awk_special (ascii_trim s).
 Proof.
-  intros Htrim Hpf.
-  pose proof (parse_float_text_cases s) as Hc. cbv zeta in Hc. rewrite Htrim in Hc.
+  intros Hpf.
+  pose proof (parse_float_text_cases s) as Hc. cbv zeta in Hc.
   unfold parse_float in Hpf.
   destruct (parse_float_text s) as [text|].
-  - destruct (go_parse_float text) as [|v r] eqn:Hgo; [discriminate|]. destruct r; [discriminate|].
+  - destruct (go_parse_float text) as [|v rng] eqn:Hgo; [discriminate|].
     destruct (contains 95 text) eqn:H95; [discriminate|].
     destruct Hc as [[_ ->] | [Htne Hc]]; [discriminate|].
     destruct (opt_sign (ascii_trim s)) as [sg u] eqn:Hos.
@@ -549,11 +547,12 @@ Proof.
     + split; [exact Et|]. right; left. split; [reflexivity|exact Hn].
 Qed.
 
-(* the NBSP witness: accepted by parseFloat, not in the grammar (ASCII trimming leaves it whole) *)
-Lemma nbsp12_accepted_not_numeric :
-  exists s x, parse_float s = PFOk x /\ ~ (awk_numeral (ascii_trim s) \/ awk_special (ascii_trim s)).
+(* text with a non-ASCII blank at an edge is not numeric for either routine *)
+Lemma nbsp12_is_a_string :
+  parse_float [194; 160; 49; 50] = PFErrSyntax /\ parse_float_prefix [194; 160; 49; 50] = Ok (FFin 0 0) /\
+  ~ (awk_numeral (ascii_trim [194; 160; 49; 50]) \/ awk_special (ascii_trim [194; 160; 49; 50])).
 Proof.
-  exists [194; 160; 49; 50], (FFin 6755399441055744 (-49)). split; [vm_compute; reflexivity|].
+  split; [vm_compute; reflexivity|]. split; [vm_compute; reflexivity|].
   change (ascii_trim [194; 160; 49; 50]) with [194; 160; 49; 50].
   intros [H | [sg [w [Hsg [Et Hw]]]]].
   - destruct (awk_numeral_head _ H) as [sg [h [r [Hsg [Et Hh]]]]].
